@@ -405,12 +405,15 @@ theorem judge_var_in_mirror (nonStrict : Bool) (fs : Facts) (vd : VarDef) (m : C
   mirror_var_header fo _ nonStrict fs vd m h
 
 /-- … and the action object carries exactly the argument list C14's `actMatches` compares: the
-    in-arguments then the out-arguments, each with its direction and related variable's name -/
+    in-arguments then the out-arguments, each with its direction and related variable's name — the
+    name as the factory reads it, i.e. stripped like the variable's own name in `judge_var_in_mirror`
+    (F05f; the C14 serializer writes un-padded names, so for blank-free names this is the name itself) -/
 theorem judge_action_in_mirror (vars : List (C05.VarM F)) (sa : SAct) (m : C05.ActM)
     (h : C05.mirrorAction vars (specOfAct sa) = .ok m) :
     m.name = sa.name
     ∧ m.args.map (fun g => (g.name, g.direction, g.related))
-        = sa.ins.map (fun x => (x.name, "in".toList, x.var.name)) ++ sa.outs.map (fun x => (x.name, "out".toList, x.var.name)) := by
+        = sa.ins.map (fun x => (x.name, "in".toList, C05.stripWs x.var.name))
+          ++ sa.outs.map (fun x => (x.name, "out".toList, C05.stripWs x.var.name)) := by
   obtain ⟨h1, _⟩ := C05.args_bound_by_name vars (specOfAct sa) m h
   refine ⟨?_, ?_⟩
   · have := C05.actionOf_name _ _ _ m (by simpa [C05.mirrorAction] using h)
